@@ -183,6 +183,9 @@ def qbits_cases(run):
                             ids, inb = idx_vars("n", x.shape)
                             run.add(f"C06/move-keeps{fld}[{tag}]", r.hyps + inb, z3.And(x.elem(ids) == y.elem(ids), lib.shape_eq(x.shape, y.shape), z3.BoolVal(x.dtype == y.dtype)),
                                     "property", inst, replay=rp)
+                        run.add(f"C06/move-keeps-reported-shape-and-stride[{tag}]", r.hyps,
+                                z3.And(lib.shape_eq(list(v.fields["_w_size"]), list(q.fields["_w_size"])), lib.shape_eq(list(v.fields["_w_stride"]), list(q.fields["_w_stride"]))),
+                                "property", inst, replay=rp)
                         run.add(f"C06/move-keeps-meta[{tag}]", r.hyps, z3.BoolVal(v.fields["_qtype"] is q.fields["_qtype"] and v.fields["_axis"] == q.fields["_axis"]
                                                                               and E.eq(v.fields["_group_size"], q.fields["_group_size"]) is not False), "property", inst, replay=rp)
                     kind, v = outs["to-other-dtype"]
@@ -322,6 +325,28 @@ def replay(model, seed, case, inst):
 
 
 def replay_qbits(model, seed, inst):
+    """detach / Parameter() / flatten-unflatten of a (group-wise) packed tensor keep its reported shape, dtype and values."""
+    import torch
+    from optimum.quanto import qtypes, quantize_weight
+    from optimum.quanto.tensor.qbits import QBitsTensor
+
+    torch.manual_seed(seed)
+    qt = qtypes[inst["qtype"]]
+    for shape, gs in (((8, 8), 4), ((4, 16), 8), ((6, 4), 2)):
+        q = quantize_weight(torch.randn(*shape), qt, inst["axis"], gs if inst["grouped"] else None)
+        for nme, f in (("detach", lambda t: t.detach()), ("Parameter", lambda t: torch.nn.Parameter(t, requires_grad=False))):
+            try:
+                v = f(q)
+            except Exception as e:
+                return {"what": f"{nme} raises {type(e).__name__}: {str(e)[:120]}", "shape": list(shape), "group_size": gs}
+            if tuple(v.shape) != tuple(q.shape) or v.dtype != q.dtype:
+                return {"what": f"{nme} changes the reported shape / dtype", "before": list(q.shape), "after": list(v.shape), "group_size": gs}
+            try:
+                same = torch.equal(v.dequantize(), q.dequantize())
+            except Exception as e:
+                return {"what": f"dequantize after {nme} raises {type(e).__name__}: {str(e)[:120]}"}
+            if not same:
+                return {"what": f"{nme} changes the dequantized values", "shape": list(shape), "group_size": gs}
     return None
 
 
@@ -329,6 +354,7 @@ def replay_file(path):
     import json
     rec = json.load(open(path))
     inst = rec["instance"]
-    r = replay(rec.get("model") or {}, rec.get("seed", 0), inst.get("case"), inst) if "case" in inst else None
+    r = replay(rec.get("model") or {}, rec.get("seed", 0), inst.get("case"), inst) if "case" in inst else \
+        (replay_qbits(rec.get("model") or {}, rec.get("seed", 0), inst) if inst.get("class") == "QBitsTensor" else None)
     print(json.dumps(r, indent=1, default=str))
     return 1 if r else 0
